@@ -295,6 +295,30 @@ Definition select_primary (m : hdrm) (cp cs : bool) : option hdrm :=
   else if (slot_txid prim <? slot_txid sec) && cs then Some (swap_prim m)
   else Some m.
 
+(* TransactionalMemory::new: the repaired header m1 is written (and synced) before anything else, if the
+   image requires recovery; slot Q changes only when the 2PC primary is trusted and a not-older secondary is
+   replaced by a copy of it (then it is valid) *)
+Definition rec_finalize (d : dsum) (m1 : hdrm) (rr : bool) : acc :=
+  let a0 := a_start (mkPst d [] m1 false false) in
+  if rr then
+    let q_changed := negb (bytes_eqb (hm_slot m1 (negb (d_p d))) (dQ d)) in
+    let b := a_issue a0 [hdr_write m1] in
+    a_sync b (d_same (a_st b) m1 (if q_changed then true else d_vq d) None)
+  else a0.
+
+(* Database::new, quick path: load_allocator_state clears recovery_required in memory; begin_writable *)
+Definition rec_quick (a1 : acc) (m1 : hdrm) : acc :=
+  run_begin_writable (a_mem a1 (set_rr m1 false) false false).
+
+(* Database::new, full repair with the verifying primary m2: clear_recovery_required; the repair commit
+   (two-phase, ShrinkPolicy::Never, no page writes, the pages of the served commit); begin_writable *)
+Definition rec_full (a1 : acc) (m2 : hdrm) (q : bytes) (rng : list range) : acc :=
+  let a1' := a_mem a1 m2 false false in          (* repair_primary_corrupted: in memory only *)
+  let m3 := set_rr m2 false in
+  let a2 := a_issue a1' [hdr_write m3] in
+  let a3 := a_mem (a_sync a2 (d_same (a_st a2) m3 (d_vq (p_d (a_st a2))) None)) m3 false false in
+  run_begin_writable (run_commit a3 true q rng [] None).
+
 Definition recovery_run (d : dsum) (o : roracle) : option acc :=
   let g := hget (d_hdr d) in
   let m0 := parse_hdr (d_hdr d) in
@@ -305,41 +329,38 @@ Definition recovery_run (d : dsum) (o : roracle) : option acc :=
   match select_primary m0' (cks (hm_prim m0)) (cks (negb (hm_prim m0))) with
   | None => None
   | Some m1 =>
-      let a0 := a_start (mkPst d [] m1 false false) in
-      (* TransactionalMemory::new: the repaired header is written before anything else *)
-      let q_changed := negb (bytes_eqb (hm_slot m1 (negb (d_p d))) (dQ d)) in
-      let a1 := if hm_rr m0
-                then let b := a_issue a0 [hdr_write m1] in
-                     a_sync b (d_same (a_st b) m1 (if q_changed then true else d_vq d) None)
-                else a0 in
-      if hm_2pc m1 && ro_quick o then
-        (* load_allocator_state: recovery_required = false in memory; begin_writable *)
-        Some (run_begin_writable (a_mem a1 (set_rr m1 false) false false))
+      let a1 := rec_finalize d m1 (hm_rr m0) in
+      if hm_2pc m1 && ro_quick o then Some (rec_quick a1 m1)
       else
         (* do_repair: the primary that does not verify is swapped out (never under 2PC) *)
-        let m2 := if Bool.eqb (hm_prim m1) (d_p d) then Some m1
-                  else if hm_2pc m1 then None else Some (swap_prim m1) in
-        match m2 with
-        | None => None
-        | Some m2 =>
-            (* clear_recovery_required *)
-            let m3 := set_rr m2 false in
-            let a2 := a_issue a1 [hdr_write m3] in
-            let a3 := a_mem (a_sync a2 (d_same (a_st a2) m3 (d_vq (p_d (a_st a2))) None)) m3 false false in
-            (* the repair commit: two-phase, ShrinkPolicy::Never, no page writes *)
-            let a4 := run_commit a3 true (ro_q o) (d_rp d) [] None in
-            Some (run_begin_writable a4)
-        end
+        if Bool.eqb (hm_prim m1) (d_p d) then Some (rec_full a1 m1 (ro_q o) (d_rp d))
+        else if hm_2pc m1 then None
+        else Some (rec_full a1 (swap_prim m1) (ro_q o) (d_rp d))
   end.
 
-(* side conditions of a recovery run *)
-Definition rec_okb (d : dsum) (o : roracle) : bool :=
+(* what every truthful summary of a recoverable image offers (ProtocolP.image_ok_rec_hdr): header length,
+   magic, version bytes, and a two-phase primary that is the served slot *)
+Definition rec_hdr_okb (d : dsum) : bool :=
+  let g := hget (d_hdr d) in
   let m0 := parse_hdr (d_hdr d) in
-  slot_wfb (ro_q o)
-  && (slot_txid (dP d) <? slot_txid (ro_q o))
-  && (negb (hm_rr m0) || lay_okb m0 (ro_lay o) (d_len d))
-  (* byte-identical slots: the summary names the primary as the served one *)
+  (length (d_hdr d) =? HDR_LEN)%nat && bytes_eqb (magic_at g) MAGICNUMBER
+  && slot_wfb (dP d) && slot_wfb (dQ d)
+  && (negb (hm_2pc m0) || Bool.eqb (d_p d) (hm_prim m0)).
+
+(* side conditions of a recovery run: a valid length, the served pages inside the file, no claim about
+   slot Q's pages, byte-identical slots summarised with the primary as the served one, a clean header whose
+   region counts describe the file; and the oracle inputs (the repair commit's slot with the next
+   transaction id, the region counts recomputed from the file length) *)
+Definition rec_side_okb (d : dsum) (o : roracle) : bool :=
+  let g := hget (d_hdr d) in
+  let m0 := parse_hdr (d_hdr d) in
+  len_okb d (d_len d) && within (d_rp d) (d_len d)
+  && match d_rq d with None => true | Some _ => false end
+  && slot_wfb (ro_q o) && (slot_txid (dP d) <? slot_txid (ro_q o))
+  && (if hm_rr m0 then lay_okb m0 (ro_lay o) (d_len d) else stored_sane g && (stored_len g =? d_len d))
   && (negb (bytes_eqb (dP d) (dQ d)) || Bool.eqb (d_p d) (hm_prim m0)).
+
+Definition rec_okb (d : dsum) (o : roracle) : bool := rec_hdr_okb d && rec_side_okb d o.
 
 (* ---------- the same protocol with its ordering broken (for negative examples) ---------- *)
 
